@@ -60,6 +60,7 @@ type vfcAttempt struct {
 	Err    string
 	Routes []int // per accepted put
 	IDs    []int
+	before map[int]int // arrivals at the nodes before this attempt
 }
 
 type vfcResult struct {
@@ -160,7 +161,7 @@ func vfcRun(scn *vfcScn) (*vfcResult, error) {
 		default:
 			b = c.NewTxnBatcher()
 		}
-		at := &vfcAttempt{Batch: i, Seg: d.Seg()}
+		at := &vfcAttempt{Batch: i, Seg: d.Seg(), before: d.Arrivals()}
 		for j, cm := range scn.Batches[i] {
 			if first && scn.MidPut[fmt.Sprintf("%d.%d", i, j)] {
 				refresh()
@@ -203,10 +204,11 @@ func vfcRun(scn *vfcScn) (*vfcResult, error) {
 			}
 			return
 		}
-		if d.WaitSeen(at.IDs, 150*time.Millisecond) {
+		if txn {
+			d.WaitSeen(at.IDs, 150*time.Millisecond)
 			return
 		}
-		for _, id := range d.Unseen(at.IDs) {
+		for _, id := range d.WaitProgress(at.IDs, at.before, 150*time.Millisecond) {
 			if !txn {
 				d.Log(fmt.Sprintf("U:%d:%d", at.Batch, id))
 			}
@@ -324,6 +326,15 @@ func vfcMonitor(scn *vfcScn, res *vfcResult) []vfcViol {
 			idBatch[id], idRoute[id] = at.Batch, at.Routes[i]
 		}
 	}
+	redirected := map[int]bool{} // batches that got a MOVED/ASK answer
+	for _, e := range res.Trace {
+		p := strings.Split(e, ":")
+		if (p[0] == "q" || p[0] == "t") && len(p) == 5 && (p[4][0] == 'm' || p[4][0] == 'a') {
+			var id int
+			fmt.Sscan(p[2], &id)
+			redirected[idBatch[id]] = true
+		}
+	}
 	last := map[[2]int]int{} // (seg,key) -> last executed id
 	has := map[[2]int]bool{}
 	execIn := map[[2]int]int{} // (seg,id) -> count
@@ -348,12 +359,13 @@ func vfcMonitor(scn *vfcScn, res *vfcResult) []vfcViol {
 					// queues while both unfinished (D21 same batch, D22 batch in flight)
 					w := "per-key-inversion"
 					lo, hi := e.ID, last[sk]
-					if idRoute[lo] != idRoute[hi] {
-						if idBatch[lo] == idBatch[hi] {
-							w = "batch-route-split"
-						} else if scn.Mode == "pipe" || scn.Mode == "txnpipe" {
-							w = "pipelined-redirect-reorder"
-						}
+					pipelined := (scn.Mode == "pipe" || scn.Mode == "txnpipe") && scn.Window > 1
+					if idRoute[lo] != idRoute[hi] && idBatch[lo] == idBatch[hi] {
+						w = "batch-route-split"
+					} else if pipelined && idBatch[lo] != idBatch[hi] && (idRoute[lo] != idRoute[hi] || redirected[idBatch[lo]]) {
+						// the older command's batch was answered MOVED/ASK and is followed only
+						// at Receive time, after the newer batch (already in flight) executed
+						w = "pipelined-redirect-reorder"
 					}
 					out = append(out, vfcViol{w, fmt.Sprintf("key %s: cmd %d (batch %d, routed to node %d) took effect after cmd %d (batch %d, routed to node %d)",
 						scn.Keys[ki], lo, idBatch[lo], idRoute[lo], hi, idBatch[hi], idRoute[hi])})
@@ -723,7 +735,7 @@ func vfcOne(s *vfutil.Session, idx int, scn *vfcScn) {
 			"scenario": string(js), "mode": scn.Mode, "window": scn.Window, "trace": strings.Join(res.Trace, " "),
 		}
 		if v.what == "pipelined-redirect-reorder" {
-			rp["cause"] = "slot-map-refresh-between-dispatch-and-receive"
+			rp["cause"] = "redirect-followed-at-receive-while-newer-batch-in-flight"
 		}
 		s.Violate(v.what, v.detail, rp)
 	}
